@@ -31,7 +31,8 @@ ASSUMPTIONS = [
     "tolerance = 32 x max(8 eps |y|, spread of the reference pipeline under per-stage (1+-eps) perturbations)",
     "grids smaller than 2*max(width,2)+3 per side are treated as inadmissible",
 ]
-REQUIRE = {"steps_ns2d": 6, "steps_ns3d": 6, "steps_passive": 4, "clock_checks": 16, "forcing_zero_checks": 4}
+REQUIRE = {"steps_ns2d": 6, "steps_ns3d": 6, "steps_passive": 4, "clock_checks": 16, "forcing_zero_checks": 4,
+           "steps_observed_with_zero_component_at_poisson_solve": 6, "simulators_in_small_dimensional_regime": 4}
 
 # the last two of each pool have ONE LONG AXIS (> 32 cells): seams of slab-/block-wise processing only exist there
 POOL2 = [(14, 19), (16, 23), (22, 17), (13, 12), (24, 15), (18, 21), (12, 20), (20, 13), (41, 12), (12, 37)]
@@ -112,6 +113,13 @@ def run_shard(sh, rec):
         if c["cid"] % 7 == 3:
             nu = 0.0  # inviscid run (the Hill's vortex example): the diffusion stage contributes exactly nothing
             rec.count("simulators_with_zero_viscosity")
+        small = c["cid"] % 5 == 2 and nu > 0
+        if small:
+            # dimensional regime "water in a millimetre box, SI units": domain 1e-3, viscosity 1e-7..3e-6 (around and below 10 eps of
+            # float32), steps with nu dt/dx^2 = 0.02..0.2 - the diffusion term is as large as in any other run although nu is tiny
+            xr = 1e-3 * xr
+            nu = float(10 ** rng.uniform(-7, -5.5))
+            rec.count("simulators_in_small_dimensional_regime")
         rho = float(10 ** rng.uniform(-2, 2))
         t0 = float(rng.choice([0.0, 0.25, 17.5]))
         cfg = dict(kind=kind, shape=shape, x_range=xr, nu=nu, dtype=c["dtype"], threads=2, forcing=c.get("forcing", False),
@@ -133,8 +141,10 @@ def run_shard(sh, rec):
         # ONE free-stream container per simulator object, updated IN PLACE between the steps (how a caller ramps a free stream);
         # alternately a numpy array and a python list
         fs_box = np.zeros(d) if c["cid"] % 2 == 0 else [0.0] * d
-        for skind in ("noise", "mixed", "scaled", "ties"):
+        for skind in ("noise", "mixed", "scaled", "ties") + (("planar",) if kind == "ns3d" else ()):
             dt = float(10 ** rng.uniform(-5, -1))
+            if small:
+                dt = float(rng.uniform(0.02, 0.2) * dx * dx / nu)
             # dt as the caller might pass it: python float, numpy double, or the working precision
             dt = [dt, np.float64(dt), real_t(dt)][int(rng.integers(3))]
             lead_w = () if (kind == "ns2d" or (kind == "passive" and cfg["field_type"] == "scalar")) else (3,)
@@ -151,6 +161,18 @@ def run_shard(sh, rec):
                     u0[...] = 0
                 rec.count("states_with_velocity_ties")
             f0 = _state(rng, skind, shape, (d,), real_t) if cfg["forcing"] else None
+            if skind == "planar":
+                # LAST step of this simulator object: planar vorticity that stays planar up to the Poisson solve (component zc identically
+                # zero, uniform velocity with u_zc = 0 or fluid at rest, forcing only along zc), after steps in which that component was
+                # not zero: the stream function of the vanishing component must be recomputed (= 0), not kept
+                zc = int(rng.integers(3))
+                w0[zc] = 0
+                for cc in range(3):
+                    u0[cc] = real_t(rng.uniform(0.5, 2.0)) if (cc != zc and c["cid"] % 2) else 0
+                if f0 is not None:
+                    for cc in range(3):
+                        if cc != zc:
+                            f0[cc] = 0
             fs = rng.standard_normal(d)
             if skind in ("mixed", "ties"):
                 # axis-aligned free streams: one or two components exactly zero (python/numpy zeros), the rest generic
@@ -181,6 +203,8 @@ def run_shard(sh, rec):
                 rec.case(None)
                 break
             rec.count("steps_" + kind)
+            if skind == "planar" and not np.asarray(prim[zc]).any():
+                rec.count("steps_observed_with_zero_component_at_poisson_solve")
             # clock and forcing
             rec.count("clock_checks")
             if not (sim.time == t0 + dt):  # same float addition, same operand types
